@@ -231,6 +231,20 @@ def roundtrip(t):
     o.append('    }')
     o.append('}')
     o.append('')
+    # C04's statement at the level of the specifications: whatever value the decoder's contract admits on the encoder's bytes
+    # is the encoded value
+    o.append('pub proof fn lemma_%s_decode_of_encode(d: Seq<u8>, p: int, b: %s, b2: %s)' % (name, box, box))
+    o.append('    requires 0 <= p, %s_wire(b), %s_at(wr(d, p, %s_bytes(b)), p, b2), %s_fields_wire(b2)' % (name, name, name, name))
+    if name == 'stsc':
+        o.append('    ensures b2.version == b.version, b2.flags == b.flags, b2.entries@.len() == b.entries@.len(),')
+        o.append('        forall|j: int| 0 <= j < b.entries@.len() ==> stsc_entry_wire_eq(#[trigger] b2.entries@[j], b.entries@[j])')
+    else:
+        o.append('    ensures b2.version == b.version, b2.flags == b.flags, b2.entries@ == b.entries@')
+    o.append('{')
+    o.append('    lemma_%s_roundtrip(d, p, b);' % name)
+    o.append('    lemma_%s_functional(wr(d, p, %s_bytes(b)), p, b2, b);' % (name, name))
+    o.append('}')
+    o.append('')
     return '\n'.join(o)
 
 
